@@ -1,5 +1,6 @@
 import CuriesVerif.Spec.Answer
 import CuriesVerif.Lemmas.Lpi
+import CuriesVerif.Lemmas.Sort
 
 /-!
 # Well-formed converters: one owner per prefix, validated records, indexes mirror the records
@@ -174,7 +175,7 @@ theorem unique_iff_duplicates (recs : List Record) :
     exact List.pairwise_and_iff.mpr ⟨h2, h1⟩
 
 theorem sortRecords_perm (recs : List Record) : (sortRecords recs).Perm recs :=
-  List.mergeSort_perm _ _
+  isort_perm _ _
 
 /-- **C04 core / T1.**  The strict constructor succeeds iff the collection is one-owner
 unique; URI clashes are reported first. -/
